@@ -110,11 +110,20 @@ def brief(c, around=None):
     return d
 
 
+def setup_failures(cases):
+    """Scenarios that could not be set up (a handshake timing out on a loaded machine ...): they say nothing
+    about the property and are not oracle failures."""
+    return ["%s: %s" % (c.get("id"), m.partition(" | ")[2].strip()) for c in cases for m in (c.get("oracle") or [])
+            if m.partition(" | ")[0].strip().endswith(":harness-setup")]
+
+
 def oracle_failures(cases):
     res = []
     for c in cases:
         for m in c.get("oracle") or []:
             sig, _, what = m.partition(" | ")
+            if sig.strip().endswith(":harness-setup"):
+                continue
             res.append({"signature": sig.strip(), "what": "%s: %s" % (c["id"], what.strip()), "case": brief(c)})
     return res
 
@@ -129,9 +138,15 @@ def check(run):
     if err:
         run.add_corr_break("T: " + err)
         cases = []
+    sf = setup_failures(cases)
+    if sf:
+        run.coverage["scenarios_not_set_up"] = sf
+        if 2 * len(sf) > len(cases):
+            run.add_corr_break("T: most scenarios could not be set up: " + "; ".join(sf[:4]))
     for f in oracle_failures(cases):
         run.add_oracle_failure(f["signature"], f["what"], f["case"])
-    model_cases = [c for c in cases if not c.get("skip_model") and not c.get("ambiguous") and c.get("hist")]
+    model_cases = [c for c in cases if not c.get("skip_model") and not c.get("ambiguous") and c.get("hist")
+                   and not any(m.partition(" | ")[0].strip().endswith(":harness-setup") for m in (c.get("oracle") or []))]
     ambiguous = [c["id"] for c in cases if c.get("ambiguous")]
     if model_cases:
         try:
